@@ -8,6 +8,12 @@ Definition oneline_handlers := build_oneline src_oneline.
 Definition oneline_is_async := oneline_async src_oneline.
 Definition install_trace := itrace src_inst.
 Definition src_strip := strip (ol_strip_class src_oneline).
+(* the file sink each front-end builds, laid out over the days of the records that reach it *)
+Definition ini_layout s npre d0 ms := lay_obs (layout (ini_fparams src_ini s) npre d0 (ini_file_days s ms)).
+Definition oneline_layout a npre d0 ms := lay_obs (layout (ol_fparams src_oneline a) npre d0 (ol_file_days a ms)).
+Definition ini_layout_oracle s npre d0 ms obs := prop_layout_b (ini_want s) npre d0 (ini_file_days s ms) obs.
+Definition oneline_layout_oracle a npre d0 ms obs := prop_layout_b (ol_want a) npre d0 (ol_file_days a ms) obs.
 Extraction "config_model.ml" ini_handlers ini_is_async oneline_handlers oneline_is_async install_trace
   src_strip run project stderr_records stream_text spec_stdout spec_stderr spec_file prop_ini_b
-  prop_oneline_b strip_sgr prop_install_b rules_text rx_text pattern_text.
+  prop_oneline_b strip_sgr prop_install_b rules_text rx_text pattern_text
+  ini_layout oneline_layout ini_layout_oracle oneline_layout_oracle.
